@@ -1,1 +1,332 @@
-/-! C33 — property theorems (stub: nothing proved yet). -/
+import B6.Model.TileEncoder
+import B6.Lemmas.TileEncoder
+/-!
+# C33 — Vector tile geometry decodes to the projected feature
+
+Theorems about `B6.Model.TileEncoder` (the model of `renderer.Encoder` / `EncodeTile`, encoder.go) against a
+decoder written from the Mapbox Vector Tile spec 2.1 command grammar.
+
+* `zigzag_roundtrip`           — `zigzagDecode (zigzagEncode d) = d` for every int32 delta (repaired `zigzagDecode`);
+  `zigzagDecodeArith_counterexample` — the code before fixes/C10-zigzag-decode.patch lost `d = 2^30`.
+* `tile_geometry_roundtrip`    — for every encoder state, every point / line string / polygon (any number of loops
+  and points) whose cursor deltas fit an int32: the feature's command stream decodes to the feature's projected
+  coordinates relative to the tile origin, holes backwards from their first vertex.
+* `tile_geometry_roundtrip_in_tile` — the int32 hypothesis holds for every geometry within 2^30 units of the origin.
+* `tile_winding_opposite`      — a decoded hole has minus the signed area of its loop, a decoded outer ring the same
+  signed area (surveyor's formula on the decoded integers): loops of one orientation (as S2 keeps them) come out
+  with outer rings and holes in opposite winding.
+* `tile_tags_roundtrip`        — after any sequence of features has been encoded into a layer, the tag words of
+  every feature decode, through the layer's final key / value tables, to that feature's tags in order.
+-/
+namespace B6.Props.C33
+open B6.Model.TileEncoder B6.Lemmas.TileEncoder
+
+/-! ## zigzag -/
+
+theorem zigzag_roundtrip (d : Int) (h : inInt32 d) : zigzagDecode (zigzagEncode d) = d :=
+  paramValue_zigzagEncode d h
+
+example : inInt32 (-2147483648) ∧ zigzagEncode (-2147483648) = 4294967295 := by decide
+
+/-- zigzag is a bijection on 32-bit words (both directions, all 2^32 values) -/
+theorem zigzag32_bijective (v : BitVec 32) : unzigzag32 (zigzag32 v) = v ∧ zigzag32 (unzigzag32 v) = v :=
+  ⟨unzigzag32_zigzag32 v, zigzag32_unzigzag32 v⟩
+
+/-- the unrepaired `zigzagDecode` (arithmetic shift) returned -2^30 for the encoding of 2^30 -/
+theorem zigzagDecodeArith_counterexample :
+    (zigzagDecodeArith (zigzag32 (BitVec.ofInt 32 1073741824))).toInt ≠ 1073741824 := by decide
+
+/-! ## geometry -/
+
+theorem encodePoint_eq (e : Enc) (p : Pt) :
+    encodePoint e p = some (adv { startFeature e with cur := some { ftype := 1 } } { ftype := 1 }
+      (cmdWord cmdMoveTo 1 :: xyWords (e.ox, e.oy) p) p) := by
+  unfold encodePoint
+  simp only [bind, Option.bind, setType, withCur, startFeature]
+  rw [moveTo_adv _ _ rfl]
+  simp only
+  rw [xy_adv _ _ (adv_cur ..), adv_adv]
+  simp [adv]
+
+theorem encodeLineString_eq (e : Enc) (p : Pt) (ps : List Pt) :
+    encodeLineString e (p :: ps) = some (adv { startFeature e with cur := some { ftype := 2 } } { ftype := 2 }
+      ((cmdWord cmdMoveTo [p].length :: ptsWords (e.ox, e.oy) [p]) ++ (cmdWord cmdLineTo ps.length :: ptsWords p ps))
+      (lastPt p ps)) := by
+  unfold encodeLineString
+  simp only [bind, Option.bind, setType, withCur, startFeature]
+  rw [moveTo_adv _ _ rfl]
+  simp only
+  rw [xy_adv _ _ (adv_cur ..), adv_adv]
+  simp only
+  rw [lineTo_adv _ _ (adv_cur ..), adv_adv]
+  simp only
+  rw [xys_adv _ _ _ (adv_cur ..), adv_adv]
+  simp [adv, ptsWords]
+
+theorem encodePolygon_eq (e : Enc) (loops : List (Bool × List Pt)) :
+    encodePolygon e loops = some (adv { startFeature e with cur := some { ftype := 3 } } { ftype := 3 }
+      (loopsWords (e.ox, e.oy) loops) (loopsEnd (e.ox, e.oy) loops)) := by
+  unfold encodePolygon
+  simp only [bind, Option.bind, setType, withCur, startFeature]
+  rw [encodeLoops_adv _ _ _ rfl]
+
+theorem loopsVisited_eq : ∀ (loops : List (Bool × List Pt)),
+    loopsVisited loops = (Geom.polygon loops).visited
+  | [] => rfl
+  | (h, pts) :: r => by
+    have ih := loopsVisited_eq r
+    simp only [Geom.visited] at ih ⊢
+    simp only [loopsVisited, ringVisited, ih, List.filter]
+    by_cases hl : pts.length > 1 <;> simp [hl]
+
+/-- **C33, geometry.** For every encoder state `e` (any earlier features of the layer) and every well-formed
+geometry whose cursor deltas fit an int32, encoding succeeds and the command stream of the new feature decodes —
+by the MVT 2.1 grammar for the feature's own type — to the projected coordinates relative to the tile origin. -/
+theorem tile_geometry_roundtrip (e : Enc) (g : Geom) (hwf : g.wellFormed)
+    (hr : DeltasOk (e.ox, e.oy) g.visited) :
+    ∃ e' f, encodeGeom e g = some e' ∧ e'.cur = some f ∧ f.ftype = g.ftype ∧
+      decodeGeometry f.ftype f.geometry = some (g.expected (e.ox, e.oy)) := by
+  have hrel0 : rel (e.ox, e.oy) (e.ox, e.oy) = (0, 0) := by simp [rel]
+  cases g with
+  | point p =>
+    refine ⟨_, _, encodePoint_eq e p, adv_cur .., rfl, ?_⟩
+    simp only [Geom.visited] at hr
+    have h := drun_command (e.ox, e.oy) cmdMoveTo (Or.inl rfl) [p] (e.ox, e.oy) [] (by simp) (by simp) hr
+    rw [hrel0] at h
+    simp only [List.length_cons, List.length_nil, ptsWords, List.append_nil] at h
+    simp [decodeGeometry, decodeOps, h, mkOp, asPoints, Geom.expected, lastPt]
+  | line pts =>
+    obtain ⟨h2, hmax⟩ := hwf
+    match pts, h2 with
+    | p :: ps, h2 =>
+      refine ⟨_, _, encodeLineString_eq e p ps, adv_cur .., rfl, ?_⟩
+      simp only [List.length_cons] at h2 hmax
+      simp only [Geom.visited] at hr
+      obtain ⟨hx, hy, hd⟩ := hr
+      have hps : ps ≠ [] := by intro h; subst h; simp at h2
+      have h1 := drun_command (e.ox, e.oy) cmdMoveTo (Or.inl rfl) [p] (e.ox, e.oy) [] (by simp) (by simp)
+        ⟨hx, hy, trivial⟩
+      have h3 := drun_command (e.ox, e.oy) cmdLineTo (Or.inr rfl) ps p ([] ++ [mkOp cmdMoveTo ([p].map (rel (e.ox, e.oy)))])
+        hps (by omega) hd
+      rw [hrel0] at h1
+      simp only [decodeGeometry, decodeOps, List.nil_append]
+      rw [drun_append, h1]
+      simp only [Option.bind_some, lastPt]
+      rw [h3]
+      simp [mkOp, cmdMoveTo, cmdLineTo, asLines, Geom.expected]
+  | polygon loops =>
+    refine ⟨_, _, encodePolygon_eq e loops, adv_cur .., rfl, ?_⟩
+    rw [← loopsVisited_eq] at hr
+    have h := drun_loops (e.ox, e.oy) loops (e.ox, e.oy) [] (fun l hl => (hwf l hl).2) hr
+    rw [hrel0] at h
+    simp only [decodeGeometry, decodeOps, List.nil_append]
+    rw [h]
+    simp only [Option.bind_some, if_true, List.nil_append]
+    rw [asRings_loopsOps _ _ (fun l hl => (hwf l hl).1)]
+    simp [Geom.expected]
+
+/-- a polygon with a hole, tile origin (4096, 8192): hypotheses hold and the statement is not vacuous -/
+def exPolygon : Geom := .polygon [(false, [(4100, 8200), (4200, 8200), (4200, 8300), (4100, 8300)]),
+  (true, [(4120, 8220), (4180, 8220), (4180, 8280)]), (false, [(1, 1)])]
+
+example : exPolygon.wellFormed ∧ DeltasOk (4096, 8192) exPolygon.visited := by
+  refine ⟨?_, by decide⟩
+  intro l hl
+  simp only [List.mem_cons, List.not_mem_nil, or_false] at hl
+  rcases hl with h | h | h <;> subst h <;> decide
+
+example : (encodeGeom (newEncoder 4096 8192) exPolygon).bind (fun e => e.cur.map (·.geometry)) =
+    some [9, 8, 16, 26, 200, 0, 0, 200, 199, 0, 15, 9, 40, 159, 18, 120, 120, 0, 119, 15] := by decide
+
+example : decodeGeometry 3 [9, 8, 16, 26, 200, 0, 0, 200, 199, 0, 15, 9, 40, 159, 18, 120, 120, 0, 119, 15] =
+    some (.rings [[(4, 8), (104, 8), (104, 108), (4, 108)], [(24, 28), (84, 88), (84, 28)]]) := by decide
+
+/-- every coordinate within 2^30 of the tile origin (in particular everything inside the tile) -/
+def Geom.near (o : Pt) (g : Geom) : Prop :=
+  ∀ p ∈ g.visited, -1073741824 ≤ p.1 - o.1 ∧ p.1 - o.1 < 1073741824 ∧ -1073741824 ≤ p.2 - o.2 ∧ p.2 - o.2 < 1073741824
+
+theorem deltasOk_of_near (o : Pt) : ∀ (pts : List Pt) (c : Pt),
+    (-1073741824 ≤ c.1 - o.1 ∧ c.1 - o.1 < 1073741824 ∧ -1073741824 ≤ c.2 - o.2 ∧ c.2 - o.2 < 1073741824) →
+    (∀ p ∈ pts, -1073741824 ≤ p.1 - o.1 ∧ p.1 - o.1 < 1073741824 ∧ -1073741824 ≤ p.2 - o.2 ∧ p.2 - o.2 < 1073741824) →
+    DeltasOk c pts
+  | [], _, _, _ => trivial
+  | p :: ps, c, hc, h => by
+    have hp := h p (by simp)
+    refine ⟨?_, ?_, deltasOk_of_near o ps p hp (fun q hq => h q (by simp [hq]))⟩ <;> unfold inInt32 <;> omega
+
+/-- **C33, geometry inside a tile**: no range hypothesis is left when the feature lies within 2^30 units of the
+tile origin (a tile is 4096 units wide). -/
+theorem tile_geometry_roundtrip_in_tile (e : Enc) (g : Geom) (hwf : g.wellFormed) (hn : Geom.near (e.ox, e.oy) g) :
+    ∃ e' f, encodeGeom e g = some e' ∧ e'.cur = some f ∧ f.ftype = g.ftype ∧
+      decodeGeometry f.ftype f.geometry = some (g.expected (e.ox, e.oy)) :=
+  tile_geometry_roundtrip e g hwf (deltasOk_of_near (e.ox, e.oy) g.visited (e.ox, e.oy) (by simp) hn)
+
+/-! ## winding -/
+
+/-- **C33, winding.** The ring a loop decodes to has the loop's signed area (surveyor's formula, tile
+coordinates) when it is an outer loop and minus that area when it is a hole. -/
+theorem tile_winding_opposite (o : Pt) (hole : Bool) (pts : List Pt) :
+    area2 ((ringOrder hole pts).map (rel o)) = if hole then - area2 pts else area2 pts := by
+  rw [area2_rel]
+  cases hole with
+  | true => simp [area2_ringOrder_hole]
+  | false => cases pts <;> simp [ringOrder]
+
+/-- loops that all turn the same way (as the loops of an `s2.Polygon` do) decode to outer rings of that
+orientation and holes of the opposite one -/
+theorem tile_winding_signs (o : Pt) (loops : List (Bool × List Pt)) (hpos : ∀ l ∈ loops, 0 < area2 l.2) :
+    ∀ l ∈ loops, (l.1 = false → 0 < area2 ((ringOrder l.1 l.2).map (rel o))) ∧
+                 (l.1 = true → area2 ((ringOrder l.1 l.2).map (rel o)) < 0) := by
+  intro l hl
+  have h := hpos l hl
+  rw [tile_winding_opposite]
+  constructor <;> intro hh <;> simp [hh] <;> omega
+
+example : area2 [(0, 0), (10, 0), (10, 10), (0, 10)] = 200 ∧
+    area2 ((ringOrder true [(0, 0), (10, 0), (10, 10), (0, 10)]).map (rel (5, 7))) = -200 := by decide
+
+/-! ## tags -/
+
+/-- the invariant: every feature of the layer decodes, through the current tables, to its expected pairs -/
+def Inv (e : Enc) (exp : List (List (String × Val))) : Prop := TagsOk e.keys e.values (tagWords e) exp
+
+theorem tagWords_cur (e : Enc) (f : Feat) (h : e.cur = some f) :
+    tagWords e = e.prev.map (·.tags) ++ [f.tags] := by
+  simp [tagWords, Enc.features, h]
+
+theorem tag_step (e : Enc) (f : Feat) (h : e.cur = some f) (exp0 : List (List (String × Val))) (T : List (String × Val))
+    (hinv : Inv e (exp0 ++ [T])) (k : String) (a : TagArg) (v : Val) (hv : a.val? = some v)
+    (hk : e.keys.length < 2 ^ 32) (hvl : e.values.length < 2 ^ 32) :
+    ∃ e' f', tag e k a = some e' ∧ e'.cur = some f' ∧ Inv e' (exp0 ++ [T ++ [(k, v)]]) ∧
+      e'.keys.length ≤ e.keys.length + 1 ∧ e'.values.length ≤ e.values.length + 1 := by
+  obtain ⟨ke, ve, ki, vi, htag, hkl, hvl', hki, hvi⟩ := tag_spec e f h k a v hv hk hvl
+  refine ⟨_, _, htag, rfl, ?_, by simp; omega, by simp; omega⟩
+  unfold Inv at hinv ⊢
+  rw [tagWords_cur e f h] at hinv
+  obtain ⟨exp1, T1, he, h0, hT⟩ := tagsOk_snoc_inv _ _ _ _ _ hinv
+  obtain ⟨he0, heT⟩ := List.append_inj' he (by simp)
+  simp only [List.cons.injEq, and_true] at heT
+  subst he0; subst heT
+  rw [tagWords_cur _ _ rfl]
+  simp only
+  apply tagsOk_snoc
+  · exact decodeTags_append _ _ _ _ _ _ _ _ (decodeTags_mono _ _ _ _ _ _ hT) hki hvi
+  · exact tagsOk_mono _ _ _ _ _ _ h0
+
+theorem tags_steps : ∀ (ts : List (String × String)) (e : Enc) (f : Feat), e.cur = some f →
+    ∀ (exp0 : List (List (String × Val))) (T : List (String × Val)), Inv e (exp0 ++ [T]) →
+    e.keys.length + ts.length ≤ 2 ^ 32 → e.values.length + ts.length ≤ 2 ^ 32 →
+    ∃ e' f', tags e (ts.map fun (k, v) => (k, TagArg.str v)) = some e' ∧ e'.cur = some f' ∧
+      Inv e' (exp0 ++ [T ++ ts.map fun (k, v) => (k, Val.str v)]) ∧
+      e'.keys.length ≤ e.keys.length + ts.length ∧ e'.values.length ≤ e.values.length + ts.length
+  | [], e, f, h, exp0, T, hinv, _, _ => ⟨e, f, rfl, h, by simpa using hinv, by simp, by simp⟩
+  | (k, v) :: ts, e, f, h, exp0, T, hinv, hk, hvl => by
+    simp only [List.length_cons] at hk hvl
+    obtain ⟨e1, f1, ht, hc1, hinv1, hk1, hv1⟩ :=
+      tag_step e f h exp0 T hinv k (.str v) (.str v) rfl (by omega) (by omega)
+    obtain ⟨e2, f2, hts, hc2, hinv2, hk2, hv2⟩ :=
+      tags_steps ts e1 f1 hc1 exp0 _ hinv1 (by omega) (by omega)
+    refine ⟨e2, f2, ?_, hc2, ?_, by simp only [List.length_cons]; omega, by simp only [List.length_cons]; omega⟩
+    · simp only [List.map_cons, tags, ht, Option.bind_some]; exact hts
+    · simpa [List.append_assoc] using hinv2
+
+/-- a geometry starts one new feature without tags and leaves the tables alone -/
+theorem encodeGeom_tags (e e' : Enc) (g : Geom) (h : encodeGeom e g = some e') :
+    e'.keys = e.keys ∧ e'.values = e.values ∧ tagWords e' = tagWords e ++ [[]] ∧ ∃ f, e'.cur = some f := by
+  cases g with
+  | point p =>
+    simp only [encodeGeom, encodePoint_eq, Option.some.injEq] at h
+    subst h
+    exact ⟨rfl, rfl, by simp [tagWords, Enc.features, adv, startFeature], _, rfl⟩
+  | line pts =>
+    cases pts with
+    | nil => simp [encodeGeom, encodeLineString, bind, Option.bind, setType, withCur, startFeature] at h
+    | cons p ps =>
+      simp only [encodeGeom, encodeLineString_eq, Option.some.injEq] at h
+      subst h
+      exact ⟨rfl, rfl, by simp [tagWords, Enc.features, adv, startFeature], _, rfl⟩
+  | polygon loops =>
+    simp only [encodeGeom, encodePolygon_eq, Option.some.injEq] at h
+    subst h
+    exact ⟨rfl, rfl, by simp [tagWords, Enc.features, adv, startFeature], _, rfl⟩
+
+def tagCount (fs : List FeatureIn) : Nat := (fs.map fun f => f.tags.length).sum
+
+def expectedTags (fs : List FeatureIn) : List (List (String × Val)) :=
+  fs.map fun f => f.tags.map fun (k, v) => (k, Val.str v)
+
+theorem encodeFeature_inv (e e' : Enc) (f : FeatureIn) (exp : List (List (String × Val))) (hinv : Inv e exp)
+    (hk : e.keys.length + f.tags.length ≤ 2 ^ 32) (hvl : e.values.length + f.tags.length ≤ 2 ^ 32)
+    (h : encodeFeature e f = some e') :
+    Inv e' (exp ++ [f.tags.map fun (k, v) => (k, Val.str v)]) ∧
+      e'.keys.length ≤ e.keys.length + f.tags.length ∧ e'.values.length ≤ e.values.length + f.tags.length := by
+  unfold encodeFeature at h
+  cases hg : encodeGeom e f.geom with
+  | none => simp [hg] at h
+  | some e1 =>
+    obtain ⟨hk1, hv1, hw1, f1, hc1⟩ := encodeGeom_tags e e1 f.geom hg
+    simp only [hg, Option.bind_some] at h
+    -- the optional ID
+    have hid : ∃ e2 f2, (if f.id ≠ 0 then setID e1 f.id else some e1) = some e2 ∧ e2.cur = some f2 ∧
+        e2.keys = e1.keys ∧ e2.values = e1.values ∧ tagWords e2 = tagWords e1 := by
+      by_cases hz : f.id ≠ 0
+      · rw [if_pos hz]
+        simp only [setID, withCur, hc1]
+        exact ⟨_, _, rfl, rfl, rfl, rfl, by simp [tagWords, Enc.features, hc1]⟩
+      · rw [if_neg hz]
+        exact ⟨e1, f1, rfl, hc1, rfl, rfl, rfl⟩
+    obtain ⟨e2, f2, hid2, hc2, hk2, hv2, hw2⟩ := hid
+    rw [hid2] at h
+    simp only [Option.bind_some] at h
+    have hinv2 : Inv e2 (exp ++ [[]]) := by
+      unfold Inv
+      rw [hk2, hv2, hw2, hk1, hv1, hw1]
+      exact tagsOk_snoc _ _ _ _ rfl _ _ hinv
+    obtain ⟨e3, f3, hts, _, hinv3, hk3, hv3⟩ :=
+      tags_steps f.tags e2 f2 hc2 exp [] hinv2 (by rw [hk2, hk1]; exact hk) (by rw [hv2, hv1]; exact hvl)
+    rw [hts] at h
+    simp only [Option.some.injEq] at h
+    subst h
+    refine ⟨by simpa using hinv3, ?_, ?_⟩
+    · rw [hk2, hk1] at hk3; exact hk3
+    · rw [hv2, hv1] at hv3; exact hv3
+
+theorem encodeFeatures_inv : ∀ (fs : List FeatureIn) (e e' : Enc) (exp : List (List (String × Val))), Inv e exp →
+    e.keys.length + tagCount fs ≤ 2 ^ 32 → e.values.length + tagCount fs ≤ 2 ^ 32 →
+    encodeFeatures e fs = some e' → Inv e' (exp ++ expectedTags fs)
+  | [], e, e', exp, hinv, _, _, h => by
+    simp only [encodeFeatures, Option.some.injEq] at h
+    subst h; simpa [expectedTags] using hinv
+  | f :: fs, e, e', exp, hinv, hk, hvl, h => by
+    simp only [tagCount, List.map_cons, List.sum_cons] at hk hvl
+    simp only [encodeFeatures] at h
+    cases h1 : encodeFeature e f with
+    | none => simp [h1] at h
+    | some e1 =>
+      simp only [h1, Option.bind_some] at h
+      obtain ⟨hinv1, hk1, hv1⟩ := encodeFeature_inv e e1 f exp hinv (by omega) (by omega) h1
+      have := encodeFeatures_inv fs e1 e' _ hinv1 (by unfold tagCount; omega) (by unfold tagCount; omega) h
+      simpa [expectedTags, List.append_assoc] using this
+
+/-- **C33, tags.** When a layer of a tile has been encoded (fewer than 2^32 tags in all), the tag words of its
+i-th feature decode, through the layer's final key and value tables, to the i-th feature's tags — keys and values,
+in the order they were written. -/
+theorem tile_tags_roundtrip (x y : Nat) (fs : List FeatureIn) (e' : Enc) (hsize : tagCount fs ≤ 2 ^ 32)
+    (h : encodeLayer x y fs = some e') :
+    TagsOk e'.keys e'.values (e'.features.map (·.tags)) (expectedTags fs) := by
+  have := encodeFeatures_inv fs (newEncoder (tileOrigin x y).1 (tileOrigin x y).2) e' [] trivial
+    (by simpa [newEncoder] using hsize) (by simpa [newEncoder] using hsize) h
+  simpa [Inv, tagWords] using this
+
+/-- two features sharing a key and a value: tables are interned once, both features decode -/
+def exFeatures : List FeatureIn :=
+  [{ geom := .point (5, 6), id := 7, tags := [("class", "fountain"), ("name", "x")] },
+   { geom := .point (8, 9), id := 0, tags := [("name", "fountain")] }]
+
+example : (encodeLayer 0 0 exFeatures).map (fun e => (e.keys, e.values, e.features.map (·.tags))) =
+    some (["class", "name"], [.str "fountain", .str "x"], [[0, 0, 1, 1], [1, 0]]) := by decide
+
+example : decodeTags ["class", "name"] [.str "fountain", .str "x"] [1, 0] = some [("name", .str "fountain")] := by
+  decide
+
+end B6.Props.C33
